@@ -781,7 +781,7 @@ def visited_vars(body, is_use):
                     seen |= subj
     return seen
 
-def rule_X6(F, R):
+def rule_X6(F, R, parts=('coverage', 'labels')):
     lib = F.lib()
     rf = recursive_fields(lib)
     R.count('X6:variants', len(rf)); R.count('X6:recursive-fields', sum(len(v) for v in rf.values()))
@@ -850,6 +850,7 @@ def rule_X6(F, R):
         if not ok:
             R.violation('rsbdd::parser_io::SymbolicParseTree / X6 / %s' % variant, 'X6',
                         'children of %s: syntax has recursive fields %s, node list visits %s, edges are emitted for %s' % (variant, fields, sorted(a), sorted(b)))
+    if 'labels' not in parts: return
     # literal edge labels within one arm are pairwise distinct
     for m in walk(te['body']):
         if m['k'] != 'Match': continue
@@ -868,6 +869,25 @@ def rule_X6(F, R):
             R.count('X6:label-sets'); R.obligation(ok, 'X6 labels ' + '|'.join(sorted(vb)))
             if not ok:
                 R.violation('rsbdd::parser_io::SymbolicParseTree / X6 / labels of %s' % '|'.join(sorted(vb)), 'X6', 'two outgoing edges of one node kind carry the same label %s: the children cannot be told apart' % labels)
+        break
+    # every non-recursive field of a node kind (operator, binder list, bound, name, initial value) must reach its label
+    a = lib.adts.get(SYN)
+    payload = {}
+    for v in a['variants']:
+        payload[v['name']] = [i for i, f in enumerate(v['fields']) if i not in rf[v['name']] and 'bdd::BDD' not in f['ty']['s']]
+    for m in walk(tl['body']):
+        if m['k'] != 'Match': continue
+        if not any(arm_variant_bindings(x) for x in m['arms']): continue
+        for arm in m['arms']:
+            vb = arm_variant_bindings(arm)
+            used = set(x['var'] for x in walk(arm['body']) if x['k'] in ('VarRef', 'UpvarRef'))
+            for variant, b in vb.items():
+                need = payload.get(variant, [])
+                missing = [i for i in need if b.get(i) is None or b[i] not in used]
+                R.count('X6:label-payload-fields', len(need)); R.obligation(not missing, 'X6 payload ' + variant)
+                if missing:
+                    R.violation('rsbdd::parser_io::SymbolicParseTree / X6 / label of %s' % variant, 'X6',
+                                'the label of a %s node does not show its field(s) %s (operator / binder list / bound / name): the exported tree no longer determines the syntax tree' % (variant, missing), arm['body'].get('loc'))
         break
     # node_label has an arm per variant
     named = set()
